@@ -420,7 +420,7 @@ def run(ck: core.Check):
     drv = core.Driver()
     fs = drv.results([{"op": "row.flowschema"}])[0]
     ck.evaluations += 1
-    if fs != _FLOW["sj"]:
+    if R.canon_schema(fs) != R.canon_schema(_FLOW["sj"]):     # remap tables are lookups: compared up to order
         ck.tie_break("Rpft.Row.flowRowSchema differs from FlowRowModel in the working tree", {"lean": fs, "source": _FLOW["sj"]})
 
     # matches_headers: model vs `re`
